@@ -67,7 +67,10 @@ def install_rules(e, rules_dict, overwrite=True):
             rules = policy.Rules.load(json.dumps(rules_dict))            # as read from a policy file's text
         except (TypeError, ValueError):
             rules = policy.Rules.from_dict(rules_dict)
-    e.set_rules(rules, overwrite=overwrite, use_conf=False)
+    if overwrite:
+        e.set_rules(rules)          # as a service writes it: the defaults (overwrite=True, use_conf=False) are part of the API
+    else:
+        e.set_rules(rules, overwrite=False, use_conf=False)
     return how
 
 
